@@ -867,6 +867,8 @@ def run(chk: Check):
     rule_e6(chk, ix)
     rule_e4_guard(chk, ix)
     rule_e8(chk, ix)
+    from .x11 import rule_x11
+    rule_x11(chk, "E8-conversion-call")   # literal evaluation: every outcome of ast.literal_eval is a value or a syntax error
     rule_e9(chk, ix)
     from .c01 import rule_is_blank
     rule_is_blank(chk, "K7-token-filter")  # the filter runs on every token: an unguarded look at the previous one raises IndexError
